@@ -55,13 +55,34 @@ def instantiate_type(
     # make a deep copy so that there is no overwriting of original template params
     ctype = deepcopy(ctype)
 
-    # Check if the return type has template parameters as the typename's name
+    # Template arguments which are templated themselves
+    # (e.g. `std::vector<std::vector<T>>`), scoped (`std::vector<T::Value>`)
+    # or `This` are instantiated in turn.
+    if isinstance(ctype, parser.TemplatedType):
+        for idx, param in enumerate(ctype.template_params):
+            if isinstance(param, parser.TemplatedType) or \
+                    str(param.typename) == 'This' or \
+                    ('This' not in param.typename.namespaces and
+                     is_scoped_template(template_typenames,
+                                        str(param.typename))[0]):
+                param = instantiate_type(param, template_typenames,
+                                         instantiations, cpp_typename,
+                                         instantiated_class)
+                ctype.template_params[idx] = param
+                ctype.typename.instantiations[idx] = param.typename
+
+    # Check if the type has template parameters as template arguments
     if ctype.typename.instantiations:
-        for idx, instantiation in enumerate(ctype.typename.instantiations):
+        for instantiation in ctype.typename.instantiations:
             if instantiation.name in template_typenames:
                 template_idx = template_typenames.index(instantiation.name)
-                ctype.typename.instantiations[idx].name =\
-                    instantiations[template_idx]
+                replacement = instantiations[template_idx]
+                # Spell the argument as the instantiation (the name stays a string).
+                instantiation.namespaces = instantiation.namespaces + list(
+                    replacement.namespaces)
+                instantiation.instantiations = deepcopy(
+                    list(replacement.instantiations))
+                instantiation.name = replacement.name
 
 
     str_arg_typename = str(ctype.typename)
